@@ -11,4 +11,6 @@ def regenerate(lean_dir):
         info["effects"] = effects_regen.regenerate(lean_dir, repo=os.environ.get("AQV_REPO", "/repo"))
     except ImportError:
         info["effects"] = None
+    from . import cropfull
+    info["cropfull"] = cropfull.regenerate(lean_dir, repo=os.environ.get("AQV_REPO", "/repo"))
     return info
